@@ -18,6 +18,9 @@ def script(model, info, art):
     cfg = info.get("cfg") or {}
     n = int(parse_num(model.get("num"), 2)) if cfg.get("num") == "int" else None
     delay = float(parse_num(model.get("delay"), 0)) if cfg.get("delay") == "real" else None
+    kinds = cfg.get("delays")            # iterable delays: one kind ('real' | 'None') per entry
+    if kinds is not None:
+        delay = [float(parse_num(model.get(f"delay{i}"), 1.0)) if k == "real" else None for i, k in enumerate(kinds)]
     # generalised counters: the model's K values say at which repetition the mismatch shows; replay from the start
     ks = [int(parse_num(v)) for k, v in model.items() if k.startswith("K!")]
     steps = list(info["script"])
@@ -50,20 +53,21 @@ def script(model, info, art):
         try:
             def plan(_side=side):
                 yield from ()
-            g = fn(plan, n if n is None else min(n, 6), delay)
+            d_ = delay
+            if kinds is not None:
+                d_ = iter(list(delay)) if cfg.get("gen") else list(delay)
+            g = fn(plan, n if n is None else min(n, 6), d_)
             seq = []
             try:
                 for m in g:
                     seq.append((m.command, tuple(m.args)))
+                    if len(seq) >= 40:
+                        break            # (num=None: compare a prefix)
             except Exception as e:
                 seq.append(("raise", type(e).__name__))
             outs[side] = seq
         finally:
             _t.time = real
-        if n is None:
-            break
-    if n is None:
-        return "not-constructible", "num=None runs forever"
     same = outs["impl"] == outs["ref"]
     return ("contradicted" if same else "confirmed"), f"num={n} delay={delay}: real {outs['impl'][:8]} vs reference {outs['ref'][:8]}"
 
